@@ -5,6 +5,7 @@ import (
 	"go/constant"
 	"go/token"
 	"go/types"
+	"strings"
 
 	"golang.org/x/tools/go/ssa"
 )
@@ -21,6 +22,9 @@ const (
 	KStr                 // constant string
 	KOpaque              // value only usable through Eval.OnCall
 	KCell                // pointer to a local scalar cell
+	KSym                 // string of symbolic length (sym.go)
+	KFunc                // closure: function and bindings
+	KTuple               // results of a call
 )
 
 // Val is an abstract value.
@@ -32,14 +36,21 @@ type Val struct {
 	Lo, Hi int
 	Str    string
 	Name   string // KOpaque
+	Segs   []Seg          // KSym
+	Fn     *ssa.Function  // KFunc
+	Binds  []Val          // KFunc
+	Tuple  []Val          // KTuple
 	cell   *cell
 	idx    int
 }
 
 type cell struct {
-	arr [][]int
-	val *Val
-	set bool
+	arr   [][]int
+	val   *Val
+	set   bool
+	items []Val // array of values that are not bytes (strings, ...)
+	pos   int   // position of a string iterator
+	sym   []Seg // contents of a strings.Builder / bytes.Buffer
 }
 
 // Eval evaluates loop-free functions.
@@ -55,6 +66,8 @@ type Eval struct {
 	// struct values built for them are not modelled (stores into them vanish)
 	ErrorsAsBits bool
 	depth        int
+	outerCond    int   // condition under which the current invocation runs
+	nextBinds    []Val // bindings of the closure about to be entered
 }
 
 // Unsupported is the error for constructs outside the grammar (=> undecided).
@@ -144,6 +157,7 @@ func (e *Eval) Call(fn *ssa.Function, args []Val) (res []Val, err error) {
 			panic(r)
 		}
 	}()
+	e.outerCond = 1
 	return e.call(fn, args), nil
 }
 
@@ -182,6 +196,16 @@ func (e *Eval) call(fn *ssa.Function, args []Val) []Val {
 	for i, p := range fn.Params {
 		vals[p] = args[i]
 	}
+	if len(fn.FreeVars) > 0 {
+		if len(e.nextBinds) != len(fn.FreeVars) {
+			unsupported("closure %s entered without its bindings", fn.Name())
+		}
+		for i, fv := range fn.FreeVars {
+			vals[fv] = e.nextBinds[i]
+		}
+	}
+	e.nextBinds = nil
+	outer := e.outerCond
 	reach := map[*ssa.BasicBlock]int{fn.Blocks[0]: 1}
 	edge := map[[2]*ssa.BasicBlock]int{}
 	addEdge := func(a, b *ssa.BasicBlock, f int) {
@@ -197,7 +221,7 @@ func (e *Eval) call(fn *ssa.Function, args []Val) []Val {
 			return e.constVal(c)
 		}
 		if f, ok := v.(*ssa.Function); ok {
-			return Val{Kind: KOpaque, Name: "func:" + f.String()}
+			return Val{Kind: KOpaque, Name: "func:" + f.String(), Fn: f}
 		}
 		if g, ok := v.(*ssa.Global); ok && e.ErrorsAsBits {
 			return Val{Kind: KOpaque, Name: "global:" + g.Name()}
@@ -261,6 +285,16 @@ func (e *Eval) call(fn *ssa.Function, args []Val) []Val {
 				}
 				continue
 			}
+			if rs[i].Kind == KSym || rs[i].Kind == KStr || rs[i].Kind == KSlice {
+				// strings are not merged: the returns that can be reached must
+				// come one per evaluation (the caller fixes the scenario)
+				if cond == 1 {
+					results[i] = rs[i]
+				} else if cond != 0 {
+					unsupported("string result under a symbolic condition in %s", fn.Name())
+				}
+				continue
+			}
 			if rs[i].Kind != KBits {
 				// other non-bit results (opaque) are only supported when all
 				// returns agree structurally; keep the first.
@@ -310,6 +344,12 @@ func (e *Eval) call(fn *ssa.Function, args []Val) []Val {
 			case *ssa.Alloc:
 				et := v.Type().Underlying().(*types.Pointer).Elem()
 				if arr, ok := et.Underlying().(*types.Array); ok {
+					if w, _, isInt := widthOf(arr.Elem()); !isInt || w != 8 {
+						// an array of values that are not bytes (the strings of a
+						// variadic call)
+						vals[v] = Val{Kind: KArrPtr, cell: &cell{items: make([]Val, arr.Len())}}
+						continue
+					}
 					c := &cell{arr: make([][]int, arr.Len())}
 					for i := range c.arr {
 						c.arr[i] = make([]int, 8)
@@ -331,6 +371,13 @@ func (e *Eval) call(fn *ssa.Function, args []Val) []Val {
 					}
 					e.condStoreArr(a.cell, x.Elems, reach[b])
 				case KElemPtr:
+					if a.cell.items != nil {
+						if m.And(outer, reach[b]) != 1 {
+							unsupported("conditional store into an array of values in %s", fn.Name())
+						}
+						a.cell.items[a.idx] = x
+						break
+					}
 					if x.Kind != KBits {
 						unsupported("store of non-integer into array element in %s", fn.Name())
 					}
@@ -372,6 +419,16 @@ func (e *Eval) call(fn *ssa.Function, args []Val) []Val {
 			case *ssa.Lookup:
 				a := get(v.X)
 				i, ok := constIdx(v.Index)
+				if tb, isTab := e.tableOf(a); isTab && !v.CommaOk {
+					if ix := get(v.Index); ix.Kind == KBits {
+						r, inRange := e.tableByte(tb, ix.Bits)
+						if !inRange {
+							unsupported("index of %s may be out of range in %s", v, fn.Name())
+						}
+						vals[v] = Val{Kind: KBits, Bits: r}
+						continue
+					}
+				}
 				if !ok || a.Kind != KSlice || v.CommaOk {
 					unsupported("unsupported lookup %s in %s", v, fn.Name())
 				}
@@ -387,13 +444,17 @@ func (e *Eval) call(fn *ssa.Function, args []Val) []Val {
 				}
 				switch a.Kind {
 				case KArrPtr:
-					if i < 0 || i >= len(a.cell.arr) {
+					if i < 0 || i >= max(len(a.cell.arr), len(a.cell.items)) {
 						unsupported("index out of range in %s", fn.Name())
 					}
 					vals[v] = Val{Kind: KElemPtr, cell: a.cell, idx: i}
 				case KSlice:
-					if a.Lo+i >= a.Hi {
+					if a.Lo+i >= a.Hi || i < 0 {
 						unsupported("index out of range in %s", fn.Name())
+					}
+					if a.cell != nil && a.cell.items != nil {
+						vals[v] = Val{Kind: KElemPtr, cell: a.cell, idx: a.Lo + i}
+						continue
 					}
 					c := &cell{arr: a.Elems}
 					vals[v] = Val{Kind: KElemPtr, cell: c, idx: a.Lo + i}
@@ -403,6 +464,16 @@ func (e *Eval) call(fn *ssa.Function, args []Val) []Val {
 			case *ssa.Index:
 				a := get(v.X)
 				i, ok := constIdx(v.Index)
+				if tb, isTab := e.tableOf(a); isTab && !ok {
+					if ix := get(v.Index); ix.Kind == KBits {
+						r, inRange := e.tableByte(tb, ix.Bits)
+						if !inRange {
+							unsupported("index of %s may be out of range in %s", v, fn.Name())
+						}
+						vals[v] = Val{Kind: KBits, Bits: r}
+						continue
+					}
+				}
 				if ok && a.Kind == KSlice && i >= 0 && a.Lo+i < a.Hi {
 					// a byte of a symbolic string
 					vals[v] = Val{Kind: KBits, Bits: a.Elems[a.Lo+i]}
@@ -415,6 +486,11 @@ func (e *Eval) call(fn *ssa.Function, args []Val) []Val {
 			case *ssa.UnOp:
 				x := get(v.X)
 				switch {
+				case v.Op == token.MUL && x.Kind == KElemPtr && x.cell.items != nil:
+					if x.cell.items[x.idx].Kind == KBits && x.cell.items[x.idx].Bits == nil {
+						unsupported("load of an unset array element in %s", fn.Name())
+					}
+					vals[v] = x.cell.items[x.idx]
 				case v.Op == token.MUL && x.Kind == KElemPtr:
 					vals[v] = Val{Kind: KBits, Bits: x.cell.arr[x.idx]}
 				case v.Op == token.MUL && x.Kind == KArrPtr:
@@ -458,13 +534,23 @@ func (e *Eval) call(fn *ssa.Function, args []Val) []Val {
 				a := get(v.X)
 				var el [][]int
 				lo, hi := 0, 0
+				var ic *cell
 				switch a.Kind {
 				case KArrPtr:
+					if a.cell.items != nil {
+						ic, hi = a.cell, len(a.cell.items)
+						break
+					}
 					el = make([][]int, len(a.cell.arr))
 					copy(el, a.cell.arr)
 					hi = len(el)
 				case KSlice:
 					el, lo, hi = a.Elems, a.Lo, a.Hi
+					if a.cell != nil && a.cell.items != nil {
+						ic = a.cell
+					}
+				case KStr:
+					el, hi = e.constBytes(a.Str), len(a.Str)
 				default:
 					unsupported("unsupported slice %s in %s", v, fn.Name())
 				}
@@ -483,8 +569,19 @@ func (e *Eval) call(fn *ssa.Function, args []Val) []Val {
 					}
 					hi = base + i
 				}
+				if ic != nil {
+					if lo < 0 || lo > hi || hi > len(ic.items) {
+						unsupported("slice bounds out of range in %s", fn.Name())
+					}
+					vals[v] = Val{Kind: KSlice, cell: ic, Lo: lo, Hi: hi}
+					continue
+				}
 				if lo < 0 || lo > hi || hi > len(el) {
 					unsupported("slice bounds out of range in %s", fn.Name())
+				}
+				if a.Kind == KStr {
+					vals[v] = Val{Kind: KStr, Str: a.Str[lo:hi]}
+					continue
 				}
 				vals[v] = Val{Kind: KSlice, Elems: el, Lo: lo, Hi: hi}
 			case *ssa.Convert:
@@ -559,13 +656,72 @@ func (e *Eval) call(fn *ssa.Function, args []Val) []Val {
 				}
 				vals[v] = out
 			case *ssa.Call:
+				e.outerCond = m.And(outer, reach[b])
 				vals[v] = e.doCall(fn, v, get)
+				e.outerCond = outer
+			case *ssa.Range:
+				x := get(v.X)
+				if x.Kind != KSlice && x.Kind != KStr {
+					unsupported("range over a value that is not a string in %s", fn.Name())
+				}
+				if x.Kind == KStr {
+					x = Val{Kind: KSlice, Elems: e.constBytes(x.Str), Lo: 0, Hi: len(x.Str)}
+				}
+				for i := x.Lo; i < x.Hi; i++ {
+					if x.Elems[i][7] != 0 {
+						unsupported("range over a string that may hold non-ASCII bytes in %s", fn.Name())
+					}
+				}
+				it := x
+				it.cell = &cell{}
+				vals[v] = Val{Kind: KOpaque, Name: "iter", Elems: x.Elems, Lo: x.Lo, Hi: x.Hi, cell: it.cell}
+			case *ssa.Next:
+				it := get(v.Iter)
+				if !v.IsString || it.Kind != KOpaque || it.Name != "iter" || it.cell == nil {
+					unsupported("unsupported iteration in %s", fn.Name())
+				}
+				if m.And(outer, reach[b]) == 0 {
+					continue
+				}
+				pos := it.Lo + it.cell.pos
+				if pos >= it.Hi {
+					vals[v] = Val{Kind: KTuple, Tuple: []Val{BoolVal(0), e.Const(0, 64, true), e.Const(0, 32, true)}}
+					continue
+				}
+				r := Val{Kind: KBits, Bits: it.Elems[pos]}
+				vals[v] = Val{Kind: KTuple, Tuple: []Val{BoolVal(1), e.Const(int64(it.cell.pos), 64, true), {Kind: KBits, Bits: e.extend(r, 32), Signed: true}}}
+				it.cell.pos++
+			case *ssa.MakeClosure:
+				f, ok := v.Fn.(*ssa.Function)
+				if !ok {
+					unsupported("unsupported closure in %s", fn.Name())
+				}
+				cl := Val{Kind: KFunc, Fn: f}
+				for _, bnd := range v.Bindings {
+					cl.Binds = append(cl.Binds, get(bnd))
+				}
+				vals[v] = cl
+			case *ssa.MakeSlice:
+				n, ok := constIdx(v.Len)
+				w, _, isInt := widthOf(v.Type().Underlying().(*types.Slice).Elem())
+				if !ok || !isInt || w != 8 || n < 0 || n > 4096 {
+					unsupported("unsupported make in %s", fn.Name())
+				}
+				if n == 0 {
+					vals[v] = Val{Kind: KSym}
+					continue
+				}
+				el := make([][]int, n)
+				for i := range el {
+					el[i] = make([]int, 8)
+				}
+				vals[v] = Val{Kind: KSlice, Elems: el, Lo: 0, Hi: n}
 			case *ssa.Extract:
 				t := get(v.Tuple)
-				if t.Kind != KOpaque || t.cell == nil || t.cell.val == nil {
+				if t.Kind != KTuple || v.Index >= len(t.Tuple) {
 					unsupported("unsupported extract in %s", fn.Name())
 				}
-				unsupported("tuple results are not supported in %s", fn.Name())
+				vals[v] = t.Tuple[v.Index]
 			case *ssa.If:
 				c := get(v.Cond)
 				if c.Kind != KBits || len(c.Bits) != 1 {
@@ -599,6 +755,9 @@ func (e *Eval) call(fn *ssa.Function, args []Val) []Val {
 					r = m.Or(r, edge[[2]*ssa.BasicBlock{p, b}])
 				}
 				reach[b] = r
+				if r == 0 {
+					continue // dead under every input
+				}
 			}
 			execBlock(b)
 		}
@@ -607,10 +766,13 @@ func (e *Eval) call(fn *ssa.Function, args []Val) []Val {
 	// path-by-path evaluation
 	steps := 0
 	type cellSnap struct {
-		c   *cell
-		arr [][]int
-		val *Val
-		set bool
+		c     *cell
+		arr   [][]int
+		val   *Val
+		set   bool
+		items []Val
+		sym   []Seg
+		pos   int
 	}
 	snapshot := func() (map[ssa.Value]Val, []cellSnap) {
 		vc := make(map[ssa.Value]Val, len(vals))
@@ -620,7 +782,7 @@ func (e *Eval) call(fn *ssa.Function, args []Val) []Val {
 			vc[k] = v
 			if v.cell != nil && !seen[v.cell] {
 				seen[v.cell] = true
-				cs = append(cs, cellSnap{v.cell, append([][]int(nil), v.cell.arr...), v.cell.val, v.cell.set})
+				cs = append(cs, cellSnap{v.cell, append([][]int(nil), v.cell.arr...), v.cell.val, v.cell.set, append([]Val(nil), v.cell.items...), v.cell.sym, v.cell.pos})
 			}
 		}
 		return vc, cs
@@ -670,7 +832,10 @@ func (e *Eval) call(fn *ssa.Function, args []Val) []Val {
 				vals[k] = v
 			}
 			for _, s := range cs {
-				s.c.arr, s.c.val, s.c.set = s.arr, s.val, s.set
+				s.c.arr, s.c.val, s.c.set, s.c.sym, s.c.pos = s.arr, s.val, s.set, s.sym, s.pos
+				if s.c.items != nil {
+					s.c.items = s.items
+				}
 			}
 		}
 	}
@@ -831,10 +996,40 @@ func (e *Eval) binop(fn *ssa.Function, v *ssa.BinOp, x, y Val) Val {
 		}
 		return BoolVal(r)
 	}
+	if isNil := func(a Val) bool { return a.Kind == KOpaque && a.Name == "nil" }; (isNil(x) || isNil(y)) && (v.Op == token.EQL || v.Op == token.NEQ) {
+		// comparison with nil: the values that are built here (windows of the
+		// input, closures, builders, built strings) are not nil
+		other := x
+		if isNil(x) {
+			other = y
+		}
+		switch other.Kind {
+		case KSlice, KFunc, KCell, KArrPtr, KSym:
+			return BoolVal(bool2bdd(v.Op == token.NEQ))
+		case KOpaque:
+			if isNil(other) {
+				return BoolVal(bool2bdd(v.Op == token.EQL))
+			}
+		}
+	}
+	if v.Op == token.ADD && (x.Kind == KSym || x.Kind == KStr) && (y.Kind == KSym || y.Kind == KStr) {
+		if x.Kind == KStr && y.Kind == KStr {
+			return Val{Kind: KStr, Str: x.Str + y.Str}
+		}
+		return e.concat(x, y)
+	}
+	if x.Kind == KStr && y.Kind == KStr && (v.Op == token.EQL || v.Op == token.NEQ) {
+		return BoolVal(bool2bdd((x.Str == y.Str) == (v.Op == token.EQL)))
+	}
 	if x.Kind != KBits || y.Kind != KBits {
 		unsupported("unsupported operands of %s in %s", v, fn.Name())
 	}
 	switch v.Op {
+	case token.QUO, token.REM:
+		if len(x.Bits) != len(y.Bits) {
+			unsupported("operand width mismatch of %s in %s", v, fn.Name())
+		}
+		return e.divmod(x, y, v.Op == token.REM)
 	case token.SHL, token.SHR:
 		n, ok := constIdx(v.Y)
 		if !ok {
@@ -947,12 +1142,27 @@ func (e *Eval) doCall(fn *ssa.Function, v *ssa.Call, get func(ssa.Value) Val) Va
 			return e.Const(int64(n), 64, true)
 		}
 	}
-	if callee := c.StaticCallee(); callee != nil && len(callee.Blocks) > 0 && e.InScope != nil && e.InScope(callee) {
-		rs := e.call(callee, args)
-		if len(rs) != 1 {
-			unsupported("call of %s: only single results are supported", name)
+	if name == "dynamic" || strings.HasPrefix(name, "dynamic:func:") {
+		fv := get(c.Value)
+		if fv.Kind == KFunc {
+			e.nextBinds = fv.Binds
+			return tupled(e.call(fv.Fn, args))
 		}
-		return rs[0]
+		if fv.Kind == KOpaque && fv.Fn != nil && len(fv.Fn.Blocks) > 0 && len(fv.Fn.FreeVars) == 0 && e.InScope != nil && e.InScope(fv.Fn) {
+			return tupled(e.call(fv.Fn, args))
+		}
+	}
+	if mc, ok := c.Value.(*ssa.MakeClosure); ok {
+		if fv := get(mc); fv.Kind == KFunc {
+			e.nextBinds = fv.Binds
+			return tupled(e.call(fv.Fn, args))
+		}
+	}
+	if r, ok := e.symCall(name, c, args, e.outerCond); ok {
+		return r
+	}
+	if callee := c.StaticCallee(); callee != nil && len(callee.Blocks) > 0 && e.InScope != nil && e.InScope(callee) {
+		return tupled(e.call(callee, args))
 	}
 	if e.OnCall != nil {
 		if r, ok := e.OnCall(name, c, args); ok {
@@ -1063,4 +1273,36 @@ func (e *Eval) expr(v ssa.Value, env map[ssa.Value]Val, depth int) Val {
 func (e *Eval) StringInput(base, n int) Val {
 	a := e.ArrayInput(base, n)
 	return Val{Kind: KSlice, Elems: a.Elems, Lo: 0, Hi: n}
+}
+
+func tupled(rs []Val) Val {
+	switch len(rs) {
+	case 0:
+		return Opaque("void")
+	case 1:
+		return rs[0]
+	}
+	return Val{Kind: KTuple, Tuple: rs}
+}
+
+func bool2bdd(b bool) int {
+	if b {
+		return 1
+	}
+	return 0
+}
+
+// tableOf views a constant string or a byte array as a lookup table.
+func (e *Eval) tableOf(a Val) ([][]int, bool) {
+	switch a.Kind {
+	case KStr:
+		return e.constBytes(a.Str), true
+	case KArray:
+		return a.Elems, true
+	case KSlice:
+		if a.cell == nil || a.cell.items == nil {
+			return a.Elems[a.Lo:a.Hi], true
+		}
+	}
+	return nil, false
 }
